@@ -87,7 +87,7 @@ func runC12(c *core.Ctx) {
 	if fn := c.Fn("C12.b", "snapshot", "(*Store).checkCRCs"); fn != nil {
 		var outer, inner *ssa.BasicBlock
 		for _, b := range fn.Blocks {
-			if b.Comment != "rangeindex.loop" {
+			if !isLoopHeader(b) {
 				continue
 			}
 			if loopRangesOverField(b, "SnapshotSet", "items") {
